@@ -350,7 +350,7 @@ where
                 Ok(Err(_)) => ex.reject("Odd<Uint>::try_random (script exhausted)", "any", Ok(true), false, inp.clone()),
                 Err(m) => ex.reject("Odd<Uint>::try_random", "any", Err(m), false, inp.clone()),
             }
-            for bl in [1u32, 2, 63, 64, 65, 64 * N as u32] {
+            for bl in [0u32, 1, 2, 63, 64, 65, 64 * N as u32] {
                 match guard(|| Odd::<BoxedUint>::random(&mut ScriptRng::from_words(s), bl)) {
                     Ok(o) => ex.produce("Odd::<Boxed>::random", "any", Kind::OddBoxed, bw(o.as_ref()), vec![inp[0].clone(), format!("bit_length={bl}")]),
                     Err(m) => ex.reject("Odd::<Boxed>::random (script exhausted)", "any", Ok(m.contains("try_random_bits")), false, inp.clone()),
@@ -429,6 +429,30 @@ where
     });
 }
 
+/// integers with NO limbs (Uint<0>, a BoxedUint built from an empty limb slice) have the value 0: no route may wrap them
+fn explore_zero_limb(ctx: &Ctx) {
+    ctx.seq("wrapper_routes", "N=0", |l| {
+        let mut ex = Explorer { l, states: BTreeSet::new(), transitions: 0, width: "N=0".into() };
+        let inp = vec!["[] (zero limbs)".to_string()];
+        let z = Uint::<0>::new([]);
+        ex.l.cases += 1;
+        ex.reject("Odd::new(Uint<0>)", "zero_limbs", guard(|| !bool::from(Odd::new(z).is_some())), false, inp.clone());
+        // (Uint<0>::to_odd indexes limb 0 and panics: Uint<0> is outside the supported widths - ZERO does not even compile -
+        //  so that is not a finding; only the trait-level routes that are total for it are driven)
+        // (NonZero::new / to_nz of Uint<0> do not compile: Uint::<0>::ZERO is rejected at compile time)
+        ex.reject("Integer::is_odd(Uint<0>)", "zero_limbs", guard(|| !bool::from(crypto_bigint::Integer::is_odd(&z))), false, inp.clone());
+        let e: &[Limb] = &[];
+        let b = BoxedUint::from(e);
+        ex.l.cases += 1;
+        let inp = vec![format!("BoxedUint::from(&[] as &[Limb]) ({} limbs)", b.nlimbs())];
+        ex.reject("Odd::new(Boxed, no limbs)", "zero_limbs", guard(|| !bool::from(Odd::new(b.clone()).is_some())), false, inp.clone());
+        ex.reject("Boxed::to_odd (no limbs)", "zero_limbs", guard(|| !bool::from(b.to_odd().is_some())), false, inp.clone());
+        ex.reject("NonZero::new(Boxed, no limbs)", "zero_limbs", guard(|| !bool::from(NonZero::new(b.clone()).is_some())), false, inp.clone());
+        ex.reject("Integer::is_odd(Boxed, no limbs)", "zero_limbs", guard(|| !bool::from(crypto_bigint::Integer::is_odd(&b))), false, inp.clone());
+        ex.l.evals += ex.transitions;
+    });
+}
+
 fn main() {
     let ctx = Ctx::from_args(P, "exploration");
     ctx.set_rule("E1+E4 route closure: every public route producing NonZero<T> / Odd<T> (T in Limb, Uint<N>, Int<N>, BoxedUint; N in 1,2,4): new / new_unwrap / to_nz / to_odd / expect / constants / Default / primitives NonZeroU8..U128 / \
@@ -441,5 +465,6 @@ fn main() {
     explore::<1>(ctx);
     explore::<2>(ctx);
     explore::<4>(ctx);
+    explore_zero_limb(ctx);
     std::process::exit(ctx.finish());
 }
